@@ -702,6 +702,28 @@ func advenfSpec(client string, seed uint64) (*quic.QUICSpec, error) {
 			q.TransportParameters[i] = tls.ActiveConnectionIDLimit([]uint64{2, 3, 4, 5, 6, 8, 9}[r.Intn(7)])
 		}
 	}
+	// a limit carried by a tls.FakeQUICTransportParameter (same ID, same bytes on the wire as the typed
+	// parameter): it is advertised all the same, so it has to be recorded and covered all the same
+	if r.Chance(1, 4) {
+		for i, tp := range q.TransportParameters {
+			switch v := tp.(type) {
+			case tls.InitialMaxData:
+				q.TransportParameters[i] = &tls.FakeQUICTransportParameter{Id: tp.ID(), Val: quicvarint.Append(nil, uint64(v))}
+			case tls.InitialMaxStreamsUni:
+				if r.Bool() {
+					q.TransportParameters[i] = &tls.FakeQUICTransportParameter{Id: tp.ID(), Val: quicvarint.Append(nil, uint64(v))}
+				}
+			case tls.MaxIdleTimeout:
+				if r.Bool() {
+					q.TransportParameters[i] = &tls.FakeQUICTransportParameter{Id: tp.ID(), Val: quicvarint.Append(nil, uint64(v))}
+				}
+			}
+		}
+		// ack_delay_exponent has no type of its own in the tls package
+		if r.Bool() {
+			q.TransportParameters = append(q.TransportParameters, &tls.FakeQUICTransportParameter{Id: 0x0a, Val: []byte{byte(r.Range(0, 20))}})
+		}
+	}
 	if !hasCID && r.Bool() {
 		q.TransportParameters = append(q.TransportParameters, tls.ActiveConnectionIDLimit([]uint64{2, 3, 4, 5, 6, 8, 9}[r.Intn(7)]))
 	}
@@ -1224,16 +1246,39 @@ func runAdvEnf(w *bufio.Writer, seed uint64, n int, args []string) {
 						fmt.Sprintf("%s override=%x wire=%x", desc, rec.ClientOverride, ext))
 				}
 			}
-			recVals := [kNum]int64{rec.InitialMaxData, rec.StreamDataBidiLocal, rec.StreamDataBidiRemote, rec.StreamDataUni, rec.MaxBidiStreams, rec.MaxUniStreams,
-				int64(rec.ActiveConnectionIDLimit), rec.MaxDatagramFrameSize, rec.MaxIdleTimeout / 1e6, 0}
+			// EVERY field of the record against this harness's own reading of the bytes on the wire (RFC 9000
+			// 18.2 defaults for absent parameters). Two spellings of "absent" are identified: no DATAGRAM
+			// support is InvalidByteCount (-1) in the record and 0 here; no max_udp_payload_size is
+			// protocol.MaxByteCount in the record (as in unmarshal) and the RFC default 65527 here.
+			dam := int64(0)
+			if rec.DisableActiveMigration {
+				dam = 1
+			}
+			recVals := []int64{rec.InitialMaxData, rec.StreamDataBidiLocal, rec.StreamDataBidiRemote, rec.StreamDataUni, rec.MaxBidiStreams, rec.MaxUniStreams,
+				int64(rec.ActiveConnectionIDLimit), max(rec.MaxDatagramFrameSize, 0), rec.MaxIdleTimeout / 1e6, rec.MaxUDPPayloadSize,
+				rec.AckDelayExponent, rec.MaxAckDelay / 1e6, dam}
+			if recVals[kUDP] == int64(protocol.MaxByteCount) {
+				recVals[kUDP] = 65527
+			}
 			present := map[uint64]bool{}
+			wireAll := append([]int64{}, adv[:]...)
+			wireAll = append(wireAll, 3, 25, 0) // ack_delay_exponent, max_ack_delay (ms), disable_active_migration
 			for _, e := range es {
 				present[e.id] = true
+				switch e.id {
+				case 0x0a, 0x0b:
+					if v, n, err := quicvarint.Parse(e.val); err == nil && n == len(e.val) {
+						wireAll[kNum+int(e.id-0x0a)] = int64(v)
+					}
+				case 0x0c:
+					wireAll[kNum+2] = 1
+				}
 			}
-			for k := 0; k < kUDP; k++ {
-				if present[kindTPID[k]] && recVals[k] != adv[k] {
-					monfail("advenf/record-wire/field/"+clientKey(client)+"/"+kindNames[k], "the recorded own parameter differs from the value on the wire",
-						fmt.Sprintf("%s recorded=%d wire=%d", desc, recVals[k], adv[k]))
+			fieldNames := append(append([]string{}, kindNames[:kNum]...), "ack_delay_exponent", "max_ack_delay", "disable_active_migration")
+			for k := range recVals {
+				if recVals[k] != wireAll[k] {
+					monfail("advenf/record/field-differs/"+fieldNames[k], "the connection's record of its own transport parameters differs from what the bytes it sent say",
+						fmt.Sprintf("%s field=%s recorded=%d wire=%d (parameter on the wire: %v)", desc, fieldNames[k], recVals[k], wireAll[k], k < kNum && present[kindTPID[k]]))
 				}
 			}
 			var iscid []byte
@@ -1341,7 +1386,7 @@ func runAdvEnf(w *bufio.Writer, seed uint64, n int, args []string) {
 				nt = 1
 			}
 			fmt.Fprintf(w, "CASE %d %s\n", nt, u.App("AdvCase", u.B(specDriven), u.List(plist), u.List(suppress), u.B(randomize), u.Hex(vc.SrcConnID), cfg.coq(), u.Z(int64(peer.MaxIdleTimeout)),
-				u.Hex(ext), ov, u.ZList(adv[:]), u.ZList(recVals[:]), enfList, u.Z(enf.IdleTimeout), u.Z(int64(deadline)), u.Z(int64(pto3)), u.List(obs)))
+				u.Hex(ext), ov, u.ZList(wireAll), u.ZList(recVals), enfList, u.Z(enf.IdleTimeout), u.Z(int64(deadline)), u.Z(int64(pto3)), u.List(obs)))
 			if i < 3 || i == len(clients) {
 				fmt.Fprintf(w, "SAMPLE\t%s adv=%v enforced=%+v probes=%v\n", desc, adv, enf, evStrs)
 			}
